@@ -323,7 +323,7 @@ func c18BigReader(r *rand.Rand, idx int) Case {
 func init() {
 	register(&Prop{
 		ID:   "C18",
-		Rule: "histories of 1-25 steps over 3 names (so re-adds occur) and 3 tags: AddDocument / AddDocumentFromReader (YAML) / AddUnnamedDocument with options in {none, WithTags, MergeTags, MustCreate}, given in random order (the same tags also split over two WithTags), interleaved with TaggedSubset(ts) (incl. '*', an unknown tag and the empty request), AsOne() (must equal TaggedSubset('*')), NamedDocument(n) (incl. unknown names). After every step the return status / LayerNames + every layer's content / served document vs the Coq model and vs a Go-side plain reference; no query may panic. An eighth of the histories are mostly unnamed adds (more than ten generated names); reader adds are sometimes preceded by a rejected add of undecodable text. An eighth of the cases: the pipeline template function mergeFiles over 1-3 YAML files = their ordered append-merge. Non-trivial: history re-adds a name successfully. Distinct by Gallina term. A third of the histories use tags that contain one another; re-adds sometimes pass the very document object that is stored; every 128th case adds a reader source of more than a mebibyte (YAML or JSON). Tags spread from a prefix of one caller-owned slice with spare capacity; views edited at and below the top level before the set is queried again.",
+		Rule: "histories of 1-25 steps over 3 names (so re-adds occur) and 3 tags: AddDocument / AddDocumentFromReader (YAML) / AddUnnamedDocument with options in {none, WithTags, MergeTags, MustCreate}, given in random order (the same tags also split over two WithTags), interleaved with TaggedSubset(ts) (incl. '*', an unknown tag and the empty request), AsOne() (must equal TaggedSubset('*')), NamedDocument(n) (incl. unknown names). After every step the return status / LayerNames + every layer's content / served document vs the Coq model and vs a Go-side plain reference; no query may panic. An eighth of the histories are mostly unnamed adds (more than ten generated names); reader adds are sometimes preceded by a rejected add of undecodable text. An eighth of the cases: the pipeline template function mergeFiles over 1-3 YAML files = their ordered append-merge. Non-trivial: history re-adds a name successfully. Distinct by Gallina term. A third of the histories use tags that contain one another; re-adds sometimes pass the very document object that is stored; every 128th case adds a reader source of more than a mebibyte (YAML or JSON). Tags spread from a prefix of one caller-owned slice with spare capacity; views edited at and below the top level before the set is queried again. An eighth of the cases (docset-batch): 2-6 steps of AddDocumentsFromDirectory (two directories met again and again, 1-4 YAML/JSON files written per step, one in six undecodable, six glob patterns incl. one matching nothing), AddDocumentsFromManifest (ConfigMap data / Secret stringData items as YAML/JSON documents, undecodable items, a missing manifest; the order in which the map of items was walked is read off the new layers), AddPropertiesFromManifest (dotted and indexed item names), all under the four option sets, interleaved with the three queries, against ds_add_files / ds_add_items / props_doc of the model.",
 		Gen: func(r *rand.Rand, tier string, idx int) Case {
 			if idx%8 == 7 { // the pipeline template function mergeFiles: a document set of files, merged in order
 				o := defaultOpts()
@@ -335,6 +335,9 @@ func init() {
 					docs = append(docs, genDoc(r, o))
 				}
 				return c18MergeFiles(r, idx, docs)
+			}
+			if idx%8 == 1 { // the batch forms: directory, manifest items, manifest as properties
+				return c18Batch(r, idx)
 			}
 			if idx%128 == 5 && idx < 1024 {
 				return c18BigReader(r, idx)
